@@ -39,8 +39,8 @@ macro_rules! c13_ghost_support {
         /// data-like argument (ikm / info / hashed or MACed data); longer arguments fail an
         /// assertion, so nothing is silently truncated
         pub(crate) const A_CAP: usize = 16;
-        pub(crate) const B_CAP: usize = 64;
-        pub(crate) const MAX_CALLS: usize = 10;
+        pub(crate) const B_CAP: usize = 80;
+        pub(crate) const MAX_CALLS: usize = 16;
 
         /// One recorded provider call.  Arguments are stored zero padded in fixed arrays so
         /// that two of them can be compared with a few u128 comparisons instead of a loop
@@ -87,6 +87,7 @@ macro_rules! c13_ghost_support {
                 && chunk(x, 16) == chunk(y, 16)
                 && chunk(x, 32) == chunk(y, 32)
                 && chunk(x, 48) == chunk(y, 48)
+                && chunk(x, 64) == chunk(y, 64)
         }
 
         /// equality of two byte strings of length <= B_CAP, without a loop
@@ -534,12 +535,30 @@ macro_rules! c13_ghost_support {
             o
         }
 
-        /// symbolic byte string of symbolic length 0..=N
+        /// symbolic byte string of symbolic length 0..=N.  Only for arguments that the code
+        /// under test passes through untouched: CBMC's cost explodes as soon as a buffer whose
+        /// LAYOUT depends on a symbolic length is read back, so encoded inputs use
+        /// `for_each_prefix` instead.
         pub(crate) fn any_bytes<const N: usize>() -> ::alloc::vec::Vec<u8> {
             let a: [u8; N] = kani::any();
             let n: usize = kani::any();
             kani::assume(n <= N);
             a[..n].to_vec()
+        }
+
+        /// Case split over the length of a symbolic byte string: `f` is run on the prefix of
+        /// length n for a symbolic n in 0..=N, once per CONCRETE length, so that inside `f` every
+        /// buffer has a concrete layout (the byte values stay symbolic).
+        pub(crate) fn for_each_prefix<const N: usize>(a: &[u8; N], mut f: impl FnMut(&[u8])) {
+            let n: usize = kani::any();
+            kani::assume(n <= N);
+            let mut k = 0;
+            while k <= N {
+                if n == k {
+                    f(&a[..k]);
+                }
+                k += 1;
+            }
         }
 
         /// symbolic byte string of length exactly N
@@ -557,41 +576,39 @@ macro_rules! c13_ghost_support {
     };
 }
 
+
 crate::c13_ghost_support!();
 
 use crate::group::SecretTree;
-use mls_rs_core::extension::ExtensionList;
+use mls_rs_core::crypto::CipherSuite;
+use mls_rs_core::extension::{Extension, ExtensionList, ExtensionType};
+use mls_rs_core::group::ConfirmedTranscriptHash;
+use mls_rs_core::protocol_version::ProtocolVersion;
 
 // ============================================================ 1. ExpandWithLabel
 // RFC 9420 section 8:  ExpandWithLabel(Secret, Label, Context, Length) =
 //     KDF.Expand(Secret, KDFLabel, Length)
-// Domain: every Length in 0..=65535 (the range of KDFLabel.length), every secret / label /
-// context byte string of length <= 4 (values symbolic).  `None` stands for Length = KDF.Nh.
-#[kani::proof]
-#[kani::stub(zeroize::optimization_barrier, noop_barrier)]
-#[kani::unwind(12)]
-fn c13_kdf_expand_with_label_bounded_4() {
+// Domain: every Length in 0..=65535 (the range of KDFLabel.length; `None` = KDF.Nh), every
+// secret, label and context of length 0..=4 with symbolic bytes.
+fn expand_with_label_case(secret: &[u8], label: &[u8], context: &[u8]) {
     let p = GhostProvider::new();
-    let secret = any_bytes::<4>();
-    let label = any_bytes::<4>();
-    let context = any_bytes::<4>();
     let len: usize = kani::any();
     kani::assume(len <= 0xffff);
     let explicit: bool = kani::any();
 
-    let r = kdf_expand_with_label(&p, &secret, &label, &context, explicit.then_some(len));
+    let r = kdf_expand_with_label(&p, secret, label, context, explicit.then_some(len));
     let want_len = if explicit { len } else { NH };
 
     assert!(r.is_ok());
     let o = r.unwrap();
-    kani::cover!(true);
-    kani::cover!(explicit && len == 0xffff && label.len() == 4 && context.len() == 4);
+    kani::cover!(explicit && len == 0xffff);
+    kani::cover!(!explicit);
     assert!(p.calls() == 1);
     assert!(p.is(
         0,
         Op::Expand,
-        &secret,
-        &rfc_kdf_label(want_len as u16, &label, &context),
+        secret,
+        &rfc_kdf_label(want_len as u16, label, context),
         want_len
     ));
     // the provider's answer is returned unchanged (checked at an arbitrary position)
@@ -603,15 +620,43 @@ fn c13_kdf_expand_with_label_bounded_4() {
     core::mem::forget(o);
 }
 
+#[kani::proof]
+#[kani::stub(zeroize::optimization_barrier, noop_barrier)]
+#[kani::unwind(12)]
+fn c13_kdf_expand_with_label_bounded_4() {
+    let secret = any_bytes::<4>();
+    let l: [u8; 4] = kani::any();
+    let c: [u8; 4] = kani::any();
+    for_each_prefix(&l, |label| {
+        for_each_prefix(&c, |context| expand_with_label_case(&secret, label, context))
+    });
+}
+
+// the two-byte form of the `<V>` length header: "MLS 1.0 " + 55 bytes = 63 (one byte),
+// + 56 bytes = 64 (two bytes 0x40 0x40)
+#[kani::proof]
+#[kani::stub(zeroize::optimization_barrier, noop_barrier)]
+#[kani::unwind(12)]
+fn c13_kdf_expand_with_label_long_label() {
+    let secret = any_exact::<NH>();
+    let l: [u8; 56] = kani::any();
+    let c: [u8; 1] = kani::any();
+    if kani::any() {
+        expand_with_label_case(&secret, &l[..55], &c);
+    } else {
+        expand_with_label_case(&secret, &l[..56], &c);
+    }
+}
+
 // a provider failure is reported as MlsError::CryptoProviderError, after exactly one call
 #[kani::proof]
 #[kani::stub(zeroize::optimization_barrier, noop_barrier)]
 #[kani::unwind(12)]
-fn c13_kdf_expand_with_label_provider_error_bounded_4() {
+fn c13_kdf_expand_with_label_provider_error() {
     let p = GhostProvider::failing_at(0);
-    let secret = any_bytes::<4>();
-    let label = any_bytes::<4>();
-    let context = any_bytes::<4>();
+    let secret = any_exact::<NH>();
+    let label = any_exact::<3>();
+    let context = any_exact::<3>();
     let len: usize = kani::any();
     kani::assume(len <= 0xffff);
     let explicit: bool = kani::any();
@@ -628,16 +673,18 @@ fn c13_kdf_expand_with_label_provider_error_bounded_4() {
 #[kani::stub(zeroize::optimization_barrier, noop_barrier)]
 #[kani::unwind(12)]
 fn c13_kdf_derive_secret_bounded_4() {
-    let p = GhostProvider::new();
     let secret = any_bytes::<4>();
-    let label = any_bytes::<4>();
-    let r = kdf_derive_secret(&p, &secret, &label);
-    assert!(r.is_ok());
-    let o = r.unwrap();
-    kani::cover!(label.len() == 4 && secret.len() == 4);
-    assert!(p.calls() == 1);
-    assert!(p.is(0, Op::Expand, &secret, &rfc_kdf_label(NH as u16, &label, &[]), NH));
-    assert!(is_out(&o, 1, NH));
+    let l: [u8; 4] = kani::any();
+    for_each_prefix(&l, |label| {
+        let p = GhostProvider::new();
+        let r = kdf_derive_secret(&p, &secret, label);
+        assert!(r.is_ok());
+        let o = r.unwrap();
+        kani::cover!(label.len() == 4);
+        assert!(p.calls() == 1);
+        assert!(p.is(0, Op::Expand, &secret, &rfc_kdf_label(NH as u16, label, &[]), NH));
+        assert!(is_out(&o, 1, NH));
+    });
 }
 
 // ============================================================ 3. epoch secrets
@@ -649,195 +696,42 @@ fn derived(p: &GhostProvider, secret: &[u8], label: &[u8]) -> u8 {
     t.unwrap()
 }
 
+const TREE_SIZE: u32 = 4;
+
 fn check_epoch_secrets(
     p: &GhostProvider,
     first_call: usize,
     epoch_secret: &[u8],
-    tree_size: u32,
     r: &KeyScheduleDerivationResult,
 ) {
     // exactly nine derivations from the epoch secret
     assert!(p.calls() == first_call + 9);
     let ks = &r.key_schedule;
-    assert!(is_out(&r.epoch_secrets.sender_data_secret, derived(p, epoch_secret, b"sender data"), NH));
+    let es = &r.epoch_secrets;
+    assert!(is_out(&es.sender_data_secret, derived(p, epoch_secret, b"sender data"), NH));
     assert!(is_out(&ks.exporter_secret, derived(p, epoch_secret, b"exporter"), NH));
     assert!(is_out(&ks.external_secret, derived(p, epoch_secret, b"external"), NH));
     assert!(is_out(&r.confirmation_key, derived(p, epoch_secret, b"confirm"), NH));
     assert!(is_out(&ks.membership_key, derived(p, epoch_secret, b"membership"), NH));
-    assert!(is_out(r.epoch_secrets.resumption_secret.raw_value(), derived(p, epoch_secret, b"resumption"), NH));
+    assert!(is_out(es.resumption_secret.raw_value(), derived(p, epoch_secret, b"resumption"), NH));
     assert!(is_out(&ks.authentication_secret, derived(p, epoch_secret, b"authentication"), NH));
     assert!(is_out(&ks.init_secret.0, derived(p, epoch_secret, b"init"), NH));
-    // encryption_secret is the root of the epoch's secret tree
+    // encryption_secret is the root secret of the epoch's secret tree
     let enc = derived(p, epoch_secret, b"encryption");
-    let want_tree = SecretTree::new(tree_size, Zeroizing::new(out(enc, NH)));
-    assert!(r.epoch_secrets.secret_tree == want_tree);
+    let want_tree = SecretTree::new(TREE_SIZE, Zeroizing::new(out(enc, NH)));
+    assert!(es.secret_tree == want_tree);
 }
 
 #[kani::proof]
 #[kani::stub(zeroize::optimization_barrier, noop_barrier)]
-#[kani::unwind(12)]
+#[kani::unwind(16)]
 fn c13_from_epoch_secret() {
     let p = GhostProvider::new();
     let epoch_secret = any_exact::<NH>();
-    let tree_size: u32 = 4;
-    let r = KeySchedule::from_epoch_secret(&p, &epoch_secret, tree_size);
+    let r = KeySchedule::from_epoch_secret(&p, &epoch_secret, TREE_SIZE);
     assert!(r.is_ok());
     let r = r.ok().unwrap();
     kani::cover!(true);
-    check_epoch_secrets(&p, 0, &epoch_secret, tree_size, &r);
+    check_epoch_secrets(&p, 0, &epoch_secret, &r);
     assert!(r.joiner_secret.0.is_empty());
-}
-
-// ---- TEMP experiments
-#[kani::proof]
-#[kani::stub(zeroize::optimization_barrier, noop_barrier)]
-#[kani::unwind(12)]
-fn x1_exact() {
-    let p = GhostProvider::new();
-    let secret = any_exact::<2>();
-    let label = any_exact::<4>();
-    let r = kdf_derive_secret(&p, &secret, &label);
-    assert!(r.is_ok());
-    let o = r.unwrap();
-    assert!(p.calls() == 1);
-    assert!(p.is(0, Op::Expand, &secret, &rfc_kdf_label(NH as u16, &label, &[]), NH));
-    assert!(is_out(&o, 1, NH));
-}
-
-#[kani::proof]
-#[kani::stub(zeroize::optimization_barrier, noop_barrier)]
-#[kani::unwind(12)]
-fn x2_minimal() {
-    let p = GhostProvider::new();
-    let secret = [1u8, 2];
-    let label = [1u8, 2, 3, 4];
-    let r = kdf_derive_secret(&p, &secret, &label);
-    assert!(p.calls() == 1);
-    core::mem::forget(r);
-}
-
-#[kani::proof]
-#[kani::stub(zeroize::optimization_barrier, noop_barrier)]
-#[kani::unwind(12)]
-fn x3_symlen_nocheck() {
-    let p = GhostProvider::new();
-    let secret = any_exact::<2>();
-    let label = any_bytes::<4>();
-    let r = kdf_derive_secret(&p, &secret, &label);
-    assert!(r.is_ok());
-    assert!(p.calls() == 1);
-    core::mem::forget(r);
-}
-
-fn x4_body(label: &[u8]) {
-    let p = GhostProvider::new();
-    let secret = any_exact::<2>();
-    let r = kdf_derive_secret(&p, &secret, label);
-    assert!(r.is_ok());
-    let o = r.unwrap();
-    assert!(p.calls() == 1);
-    assert!(p.is(0, Op::Expand, &secret, &rfc_kdf_label(NH as u16, label, &[]), NH));
-    assert!(is_out(&o, 1, NH));
-}
-
-#[kani::proof]
-#[kani::stub(zeroize::optimization_barrier, noop_barrier)]
-#[kani::unwind(12)]
-fn x4_arms() {
-    let l: [u8; 4] = kani::any();
-    let n: usize = kani::any();
-    match n {
-        0 => x4_body(&l[..0]),
-        1 => x4_body(&l[..1]),
-        2 => x4_body(&l[..2]),
-        3 => x4_body(&l[..3]),
-        4 => x4_body(&l[..4]),
-        _ => {}
-    }
-}
-
-#[kani::proof]
-#[kani::stub(zeroize::optimization_barrier, noop_barrier)]
-#[kani::unwind(12)]
-fn x5_symlen_check() {
-    let p = GhostProvider::new();
-    let secret = any_exact::<2>();
-    let label = any_bytes::<4>();
-    let r = kdf_derive_secret(&p, &secret, &label);
-    assert!(r.is_ok());
-    assert!(p.calls() == 1);
-    assert!(p.is(0, Op::Expand, &secret, &rfc_kdf_label(NH as u16, &label, &[]), NH));
-    core::mem::forget(r);
-}
-
-#[kani::proof]
-#[kani::stub(zeroize::optimization_barrier, noop_barrier)]
-#[kani::unwind(12)]
-fn x6_symsecret() {
-    let p = GhostProvider::new();
-    let secret = any_bytes::<4>();
-    let label = any_exact::<4>();
-    let r = kdf_derive_secret(&p, &secret, &label);
-    assert!(r.is_ok());
-    assert!(p.calls() == 1);
-    assert!(p.is(0, Op::Expand, &secret, &rfc_kdf_label(NH as u16, &label, &[]), NH));
-    core::mem::forget(r);
-}
-
-#[kani::proof]
-#[kani::stub(zeroize::optimization_barrier, noop_barrier)]
-#[kani::unwind(12)]
-fn x7_symlen_nondet_index() {
-    let p = GhostProvider::new();
-    let secret = any_exact::<2>();
-    let label = any_bytes::<4>();
-    let r = kdf_derive_secret(&p, &secret, &label);
-    assert!(r.is_ok());
-    assert!(p.calls() == 1);
-    let want = rfc_kdf_label(NH as u16, &label, &[]);
-    let c = p.trace.borrow()[0];
-    assert!(c.b_len == want.len());
-    let i: usize = kani::any();
-    kani::assume(i < want.len());
-    assert!(c.b[i] == want[i]);
-    core::mem::forget(r);
-}
-
-fn x8_byte(length: u16, label: &[u8], ctx: &[u8], i: usize) -> u8 {
-    const PREFIX: [u8; 8] = [0x4d, 0x4c, 0x53, 0x20, 0x31, 0x2e, 0x30, 0x20];
-    let ll = label.len();
-    if i == 0 {
-        (length >> 8) as u8
-    } else if i == 1 {
-        (length & 0xff) as u8
-    } else if i == 2 {
-        (8 + ll) as u8
-    } else if i < 11 {
-        PREFIX[i - 3]
-    } else if i < 11 + ll {
-        label[i - 11]
-    } else if i == 11 + ll {
-        ctx.len() as u8
-    } else {
-        ctx[i - 12 - ll]
-    }
-}
-
-#[kani::proof]
-#[kani::stub(zeroize::optimization_barrier, noop_barrier)]
-#[kani::unwind(12)]
-fn x8_symlen_byte_oracle() {
-    let p = GhostProvider::new();
-    let secret = any_exact::<2>();
-    let label = any_bytes::<4>();
-    let r = kdf_derive_secret(&p, &secret, &label);
-    assert!(r.is_ok());
-    assert!(p.calls() == 1);
-    let c = p.trace.borrow()[0];
-    let want_len = 2 + 1 + 8 + label.len() + 1;
-    assert!(c.b_len == want_len);
-    let i: usize = kani::any();
-    kani::assume(i < want_len);
-    assert!(c.b[i] == x8_byte(NH as u16, &label, &[], i));
-    core::mem::forget(r);
 }
